@@ -42,8 +42,18 @@ type scriptedReader struct {
 	calls  []int // requested length of every call
 }
 
+// runawayCalls bounds the number of entropy requests of one case (a case needs
+// a few dozen at most): a wrapper that keeps reseeding without making progress
+// gets an error from the source instead of hanging the check.
+const runawayCalls = 2000
+
+var errRunaway = errors.New("c17: entropy source asked 2000 times in one case - the wrapper reseeds without making progress")
+
 func (s *scriptedReader) Read(p []byte) (int, error) {
 	i := len(s.calls)
+	if i >= runawayCalls {
+		return 0, errRunaway
+	}
 	s.calls = append(s.calls, len(p))
 	data := entropyBytes(s.seed, i, len(p))
 	if i == s.failAt {
